@@ -2,79 +2,37 @@ package main
 
 import (
 	"fmt"
-	"io"
-	"log"
 
 	"diagonal.works/b6"
-	"diagonal.works/b6/ingest"
-	"github.com/golang/geo/r3"
 	"github.com/golang/geo/s2"
 )
 
-func lvls(u s2.CellUnion) string {
-	s := ""
-	for _, c := range u {
-		s += fmt.Sprintf("%d/%d:%s ", c.Face(), c.Level(), c.ToToken())
-	}
-	return s
-}
-
-func faceLoop(face int, k float64) *s2.Loop {
-	// uv square scaled by k around the face centre
-	var pts []s2.Point
-	for _, uv := range [][2]float64{{-k, -k}, {k, -k}, {k, k}, {-k, k}} {
-		pts = append(pts, s2.Point{s2FaceUVToXYZ(face, uv[0], uv[1]).Normalize()})
-	}
-	return s2.LoopFromPoints(pts)
-}
-
-func s2FaceUVToXYZ(face int, u, v float64) (r s2.Point) {
-	c := s2.CellFromCellID(s2.CellIDFromFace(face))
-	_ = c
-	switch face {
-	case 0:
-		return s2.Point{Vector: vec(1, u, v)}
-	case 1:
-		return s2.Point{Vector: vec(-u, 1, v)}
-	case 2:
-		return s2.Point{Vector: vec(-u, -v, 1)}
-	case 3:
-		return s2.Point{Vector: vec(-1, -v, -u)}
-	case 4:
-		return s2.Point{Vector: vec(v, -1, -u)}
-	default:
-		return s2.Point{Vector: vec(v, u, -1)}
-	}
-}
-
 func main() {
-	log.SetOutput(io.Discard)
-	cov := s2.RegionCoverer{MaxLevel: 16, MaxCells: 5}
-	for _, k := range []float64{0.5, 0.9, 0.99, 0.999999, 1.0, 1.01, 1.1} {
-		l := faceLoop(2, k)
-		p := s2.PolygonFromLoops([]*s2.Loop{l})
-		fmt.Println(k, l.Area(), p.Validate(), lvls(cov.Covering(p)))
+	as := anchors("quick")
+	for _, a := range as {
+		if a.name != "face1-edge" {
+			continue
+		}
+		s := buildScene(a, "quick")
+		var p, path *feat
+		for i := range s.feats {
+			if s.feats[i].name == "corner0:raw" {
+				p = &s.feats[i]
+			}
+			if s.feats[i].name == "path:along-edge-e7" {
+				path = &s.feats[i]
+			}
+		}
+		fmt.Printf("corner raw %.12f %.12f\n", p.ll.Lat.Degrees(), p.ll.Lng.Degrees())
+		for _, l := range path.path {
+			fmt.Printf("path v %.12f %.12f\n", l.Lat.Degrees(), l.Lng.Degrees())
+		}
+		pl := path.polyline()
+		proj, _ := pl.Project(pt(p.ll))
+		fmt.Println("dist m", b6.AngleToMeters(proj.Distance(pt(p.ll))))
+		cov := s2.RegionCoverer{MaxLevel: 16, MaxCells: 5}
+		fmt.Println("point cov", cellsName(cov.Covering(pt(p.ll))))
+		fmt.Println("path cov", cellsName(cov.Covering(pl)))
+		fmt.Println("anchor", cellsName([]s2.CellID{a.cell}), cellsName(a.cell.AllNeighbors(16)))
 	}
-	// build world with an area k=1.01
-	mk := func(k float64, id uint64) ingest.Feature {
-		a := ingest.NewAreaFeature(1)
-		a.AreaID = b6.AreaID{Namespace: "diagonal.works/test", Value: id}
-		a.SetPolygon(0, s2.PolygonFromLoops([]*s2.Loop{faceLoop(2, k)}))
-		a.Tags = b6.Tags{{Key: "#big", Value: b6.NewStringExpression("yes")}}
-		return a
-	}
-	w, err := ingest.NewWorldFromSource(ingest.MemoryFeatureSource([]ingest.Feature{mk(0.9, 1), mk(1.01, 2), mk(1.0, 3)}), &ingest.BuildOptions{Cores: 1})
-	fmt.Println(err)
-	q := b6.NewIntersectsCap(s2.CapFromCenterAngle(s2.PointFromLatLng(s2.LatLngFromDegrees(51.5, -0.12)), b6.MetersToAngle(100)))
-	fs := w.FindFeatures(q)
-	for fs.Next() {
-		fmt.Println("found", fs.FeatureID())
-	}
-	w.EachFeature(func(f b6.Feature, g int) error {
-		fmt.Println("each", f.FeatureID(), q.Matches(f, w), ingest.TokensForFeature(f))
-		return nil
-	}, &b6.EachFeatureOptions{Goroutines: 1})
 }
-
-
-func vec(x, y, z float64) r3.Vector { return r3.Vector{X: x, Y: y, Z: z} }
